@@ -59,7 +59,7 @@ def _eval_shards(ctx, out, summ):
 
 
 def run(ctx):
-    n = 500 if ctx.tier == "quick" else 25000
+    n = 500 if ctx.tier == "quick" else 5000
     ctx.trusted += [
         "named assumption (Model/QCache.v): the 64-bit SipHash of hash_embedding is injective on (len, quantised i16 list) — no 64-bit collision; the model key is the quantised list",
         "float gap: the model and the theorems are over exact rationals with every sqrt comparison squared (SQ comments in Model/QCache.v); the code computes norms, sqrt, the division and the running sums in f32. Correspondence inputs are on dyadic grids where all sums are exact and pools whose decisions would hinge on a sqrt/division rounding are regenerated (counted); the prefilter's rounding gap at the bound is MEASURED by the near-boundary stream against exact rationals (tolerance 1e-6*max(1,|w|)), not proved",
@@ -180,7 +180,7 @@ def run(ctx):
     ctx.say("proof/correspondence broken; widening the oracle search")
     out2 = out + "_search"
     os.makedirs(out2, exist_ok=True)
-    rc, o = vlib.sh([vlib.bin_path("c07"), "--out", out2, "--n", "4000"],
+    rc, o = vlib.sh([vlib.bin_path("c07"), "--out", out2, "--n", "2000"],
                     env={"VERIF_SEED": str(ctx.seed + 7919)}, timeout=2400)
     found = None
     try:
@@ -200,5 +200,5 @@ def run(ctx):
                        "case": found["case"], "broken": broken})
     else:
         ctx.violation({"property": "C07", "kind": "no-failing-input-found", "broken": broken,
-                       "note": "model and implementation disagree or a theorem no longer checks, but no op sequence / vector pair / engine history violating the stated property was found in the widened seeded search (4000 op sequences, 160000 pairs, 400 histories)"},
+                       "note": "model and implementation disagree or a theorem no longer checks, but no op sequence / vector pair / engine history violating the stated property was found in the widened seeded search (2000 op sequences, 60000 pairs, 200 histories)"},
                       no_input=True)
